@@ -1,16 +1,16 @@
 #!/bin/sh
-# usage: seed_checks.sh <patch.diff> [Cxx ...]   applies the patch to /repo, runs the checks, always undoes it
+# usage: seed_checks.sh <patch.diff> [Cxx ...]   applies the patch to /repo, runs the checks (in parallel), always undoes it
 patch=$1; shift
 props="$@"; [ -n "$props" ] || props=$(/venv/bin/python -c "import json;print(' '.join(c['property_id'] for c in json.load(open('/verif/MANIFEST.json'))['checks']))")
 cd /verif
 git -C /repo diff --quiet || { echo "/repo is dirty"; exit 2; }
-trap 'git -C /repo checkout -q -- .' EXIT INT TERM
+trap 'git -C /repo checkout -q -- .; git -C /verif checkout -q -- evidence 2>/dev/null' EXIT INT TERM
 git -C /repo apply "$patch" || { echo "patch does not apply to /repo"; exit 2; }
-mkdir -p /tmp/seed_ev
+out=$(mktemp -d)
+echo $props | tr ' ' '\n' | xargs -P 10 -I{} sh -c "timeout 300 ./check {} > $out/{}.txt 2>&1; echo \$? > $out/{}.rc"
 for p in $props; do
-  cp evidence/$p.json /tmp/seed_ev/$p.json 2>/dev/null
-  out=$(./check $p 2>&1); rc=$?
+  rc=$(cat $out/$p.rc)
   echo "== $p rc=$rc"
-  echo "$out" | grep -E "^(C[0-9]+-R[0-9]+ |VIOLATION|ANALYSIS-ERROR|KNOWN)" | head -8
-  cp /tmp/seed_ev/$p.json evidence/$p.json 2>/dev/null
+  grep -E "^(C[0-9]+-R[0-9]+ |VIOLATION|ANALYSIS-ERROR|KNOWN)" $out/$p.txt | head -8
 done
+rm -rf $out
